@@ -35,7 +35,9 @@ var c13Keywords = []string{"NX", "XX", "GT", "LT", "EX", "PX", "EXAT", "PXAT", "
 	"MATCH", "TYPE", "LIMIT", "BY", "ASC", "DESC", "ALPHA", "STORE", "WITHVALUES", "REPLACE", "ABSTTL", "DB", "LEN", "IDX", "MINMATCHLEN", "WITHMATCHLEN", "BIT", "BYTE",
 	"OVERFLOW", "WRAP", "SAT", "FAIL", "SET", "INCRBY", "AND", "OR", "XOR", "NOT", "ID", "ADDR", "LADDR", "USER", "SKIPME", "YES", "NO", "TIMEOUT", "ERROR", "ON", "OFF",
 	"SETNAME", "AUTH", "FILTERBY", "MODULE", "ACLCAT", "PATTERN", "string", "list", "hash", "set", "LIB-NAME", "LIB-VER", "ASYNC", "SYNC"}
-var c13Keys = []string{"ks", "kl", "kh", "kz", "kmiss", "kempty", "ks1"}
+// (the last four: names whose length is a multiple of 8 and that differ only in bit 3 of a block's first
+// byte - they once received identical table hashes, and storing both never returned)
+var c13Keys = []string{"ks", "kl", "kh", "kz", "kmiss", "kempty", "ks1", "0abcdefg", "8abcdefg", "0abcdefgABCDEFGH", "8abcdefgABCDEFGH"}
 
 func c13Arg(t *rapid.T) string {
 	switch weighted(t, "pool", []int{5, 4, 2, 3, 1}) {
